@@ -17,6 +17,7 @@ import LncModel.Record
 import LncModel.Noise
 import LncModel.Session
 import LncModel.Stack
+import LncModel.KaTrace
 /-
   Line-protocol driver: one operation per input line, one canonical result per
   output line.  Imports model files only (no Mathlib, no proofs) so it links as
@@ -114,8 +115,28 @@ def noiseRun (pat imin imax rmin rmax pwSame iExp rExp plen script : String) : S
     s!"I={showSide true ri 3 cr.payload} R={showSide false rr 1 none} X={cross}"
   | _, _, _, _, _ => "bad-op"
 
+def parseObs (tok : String) : Option Lnc.Gbn.Control.Obs :=
+  let t := (tok.drop 1).toString.toNat?
+  if tok.startsWith "k" then t.map .pkt
+  else if tok.startsWith "p" then t.map .ping
+  else if tok.startsWith "c" then t.map .close
+  else if tok.startsWith "e" then t.map .stop
+  else none
+
+/-- `ka.trace strict P Q t0 obs…`: is the observed keepalive behaviour of one endpoint a run of `KA.step`? -/
+def kaTrace (strict p q t0 : String) (obs : List String) : String :=
+  match parseBool strict, p.toNat?, q.toNat?, t0.toNat?, obs.mapM parseObs with
+  | some strict, some p, some q, some t0, some os =>
+    match Lnc.Gbn.Control.validate strict ⟨p, q, t0 + p, none, false⟩ os with
+    | none => "ok"
+    | some (i, ks) =>
+      let g := (Lnc.Gbn.Control.groups os)[i]?.getD []
+      s!"FAIL observations {repr g} (group {i}) are not a step of the keepalive model from any of {repr ks}"
+  | _, _, _, _, _ => "bad-op"
+
 def pureStep (toks : List String) : String :=
   match toks with
+  | "ka.trace" :: strict :: p :: q :: t0 :: obs => kaTrace strict p q t0 obs
   | ["gbn.deser", hex] =>
     match bytesOfHex hex with
     | some b => showOutcome showMsg (deserializeG (Lnc.Facts.guard_DATA.getD 0) b)
